@@ -105,6 +105,11 @@ def check_detector(repo: Repo, res: Result) -> None:
             continue
         for ev in sh.unknown_filters:
             res.undecide("C05.R3", key_of(repo, view, ev, f" [{b.field}]"), "a test on the two ends of a dependency pair guards its addition, but it is not recognisably `layer(end 0) != layer(end 1)`", where_of(view, ev))
+        for ev, text in sh.overfilters:
+            k = key_of(repo, view, ev, " [over-filter]")
+            if k not in seen_orient:
+                seen_orient.add(k)
+                res.add("C05.R3", k, False, f"dependencies are dropped under `{text}` although their two ends may lie in different layers (a module in no layer is 'something else' too): the filter removes more than the same-layer pairs", where_of(view, ev), kind="dominance")
         js = sh.judgements()
         jmap = {id(j.node): j for j in js}
         if src == "O" and mode == "present":
